@@ -105,8 +105,20 @@ static void case_binvert(ByteSource& in, CaseInfo& ci) {
   REQUIRE(P == Int(1), "mpn_binvert(n=%zu): r*u != 1 mod B^n", n);
 }
 static void check(ByteSource& in, CaseInfo& ci) { unsigned k = in.pick({6, 4, 1}); if (k == 0) case_powm(in, ci); else if (k == 1) case_pow(in, ci); else case_binvert(in, ci); }
+// ---- exhaustive sweep: base, exponent and modulus of up to two limbs from {0,1,2^63-1,2^63,2^64-2,2^64-1}; both signs of base and modulus ----
+static uint64_t sweep_count() { return 72ull * 36ull * 70ull; }
+static void sweep_item(uint64_t i, CaseInfo& ci) {
+  uint64_t ib = i % 72, ie = (i / 72) % 36, im = i / (72 * 36); Int B = palette_int(ib % 36, 2); if (ib >= 36) B = -B; Int E = palette_int(ie, 2); Int M = palette_int(1 + im % 35, 2); if (im >= 35) M = -M;
+  ci.d("base=%s exp=%s mod=%s", show(B).c_str(), show(E).c_str(), show(M).c_str()); Int expect = ref::powmod(B, E, M);
+  Z b, e, m, r; mpz_from_int(b, B); mpz_from_int(e, E); mpz_from_int(m, M);
+  mpz_powm(r, b, e, m); REQUIRE_WF(r, "mpz_powm"); REQUIRE(int_from_mpz(r) == expect, "mpz_powm(%s, %s, %s) = %s, expected %s", show(B).c_str(), show(E).c_str(), show(M).c_str(), show(int_from_mpz(r)).c_str(), show(expect).c_str());
+  if (E.size() <= 1) { mpz_powm_ui(r, b, E.low(), m); REQUIRE_WF(r, "mpz_powm_ui"); REQUIRE(int_from_mpz(r) == expect, "mpz_powm_ui(%s, %llu, %s)", show(B).c_str(), (unsigned long long)E.low(), show(M).c_str()); }
+  { mpz_set(r, b); mpz_powm(r, r, e, m); REQUIRE(int_from_mpz(r) == expect, "mpz_powm in place on the base (%s, %s, %s)", show(B).c_str(), show(E).c_str(), show(M).c_str()); mpz_set(r, m); mpz_powm(r, b, e, r); REQUIRE(int_from_mpz(r) == expect, "mpz_powm in place on the modulus (%s, %s, %s)", show(B).c_str(), show(E).c_str(), show(M).c_str()); }
+  if (!E.is_zero() && ref::cmpabs(M, Int(1)) > 0 && ref::gcd(B, M) == Int(1)) { Int s2, t2; ref::gcdext(B, M, s2, t2); Int inv = ref::emod(s2, M); Z ne; mpz_from_int(ne, -E); mpz_powm(r, b, ne, m); REQUIRE_WF(r, "mpz_powm"); REQUIRE(int_from_mpz(r) == ref::powmod(inv, E, M), "mpz_powm(%s, -%s, %s): negative exponent", show(B).c_str(), show(E).c_str(), show(M).c_str()); }
+}
 namespace eng {
 PropDef g_prop = {"C08",
   "Cases: mpz_powm / mpz_powm_ui (base of any sign and size incl. 0, |mod|-1, mod, larger than mod; exponent 0,1,.. with patterns all-ones / single bit / alternating / runs; modulus odd, even with 2-adic valuation 1..256 incl. whole zero low limbs, power of two, +-1, 2, negative; sizes around REDC_1/REDC_2/REDC_N/POWM thresholds and, in 1 of 6 cases, up to 720 limbs around BINV_NEWTON_THRESHOLD and twice it; mpn_binvert called directly (n up to 2600 limbs, r*u = 1 mod B^n, scratch guard); negative exponent only with gcd(base,mod)=1 and |mod|>1; result aliasing base/exp/mod) and mpz_pow_ui / mpz_ui_pow_ui (0^0, (+-1)^e with huge e, (+-2^k)^e, negative bases, results up to the scale cap). Oracle: refint square-and-multiply with refint division; result in [0,|mod|). Cost bound mod_limbs^2*exp_bits <= 3e7 (a bound on generated size, not on time). Non-trivial: exponent >= 2 bits and modulus >= 2 limbs / result >= 2 limbs. Distinct = hash of all decoded choices.",
-  check, nullptr, {"mod:odd", "mod:even", "mod:even_zero_low_limb", "mod:pow2", "mod:one", "negative_exponent", "mod_ge_redc_2", "mod_ge_redc_n", "mod_ge_powm_threshold", "zero_pow_zero", "neg_base_odd_exp", "base_gt_mod", "mpn_binvert", "binvert:newton", "base_near_modulus", "mod_minus_base_loses_limbs"}};
+  check, nullptr, {"mod:odd", "mod:even", "mod:even_zero_low_limb", "mod:pow2", "mod:one", "negative_exponent", "mod_ge_redc_2", "mod_ge_redc_n", "mod_ge_powm_threshold", "zero_pow_zero", "neg_base_odd_exp", "base_gt_mod", "mpn_binvert", "binvert:newton", "base_near_modulus", "mod_minus_base_loses_limbs"}, nullptr, sweep_count, sweep_item,
+  "every base (both signs) and exponent of up to two limbs and non-zero modulus (both signs) of up to two limbs with limbs from {0,1,2^63-1,2^63,2^64-2,2^64-1} (72 x 36 x 70): mpz_powm (also in place on base and on modulus), mpz_powm_ui for one-limb exponents, and the negative exponent when the base is invertible"};
 }
